@@ -553,40 +553,42 @@ func (vc *VC) finish() {
 	if len(vc.rets) == 0 {
 		return
 	}
-	// merge all return edges into one exit
-	var es []edge
+	var conds []string
 	for _, r := range vc.rets {
-		es = append(es, edge{nil, r.cond, r.st})
+		conds = append(conds, r.cond)
 	}
-	reach, st := vc.mergeEdges(vc.fn.Blocks[0], es)
-	reach = vc.define("reach.exit", "Bool", reach)
-	vc.obls = append(vc.obls, &Obligation{Name: vc.key + "/cover.exit", Kind: "cover", Func: vc.key, Prefix: len(vc.script), Guard: "true", Goal: sNot(reach)})
+	reachAll := vc.define("reach.exit", "Bool", sOr(conds...))
+	vc.obls = append(vc.obls, &Obligation{Name: vc.key + "/cover.exit", Kind: "cover", Func: vc.key, Prefix: len(vc.script), Guard: "true", Goal: sNot(reachAll)})
+	// one set of postcondition / frame obligations per return statement, in source order
+	idx := make([]int, len(vc.rets))
+	for i := range idx {
+		idx[i] = i
+	}
+	sort.SliceStable(idx, func(a, b int) bool { return vc.rets[idx[a]].pos < vc.rets[idx[b]].pos })
 	results := vc.fn.Signature.Results()
-	var res []SV
-	for i := 0; i < results.Len(); i++ {
-		var cur SV
-		for j := len(vc.rets) - 1; j >= 0; j-- {
-			v := vc.rets[j].res[i]
-			if cur == nil {
-				cur = v
-			} else {
-				cur = iteSV(results.At(i).Type(), vc.rets[j].cond, v, cur)
+	for k, i := range idx {
+		r := vc.rets[i]
+		suffix := ""
+		if len(vc.rets) > 1 {
+			suffix = fmt.Sprintf("@r%d", k)
+		}
+		vc.curPos = r.pos
+		var res []SV
+		for j := 0; j < results.Len(); j++ {
+			ls := toLeaves(r.res[j])
+			sorts := sortsOf(results.At(j).Type())
+			for q := range ls {
+				ls[q] = vc.define(fmt.Sprintf("result%s.%d", suffix, j), sorts[q], ls[q])
 			}
+			res = append(res, mkSV(results.At(j).Type(), ls))
 		}
-		// name the result leaves so that models can be queried
-		ls := toLeaves(cur)
-		sorts := sortsOf(results.At(i).Type())
-		for k := range ls {
-			ls[k] = vc.define(fmt.Sprintf("result.%d", i), sorts[k], ls[k])
+		env := vc.newEnv(r.st, vc.st0, nil)
+		vc.bindResults(env, con, res)
+		for _, c := range con.Ensures {
+			vc.oblige("post", "post."+c.Label+suffix, c.Props, r.cond, vc.evalBool(env, c.Expr), c.Text, r.pos)
 		}
-		res = append(res, mkSV(results.At(i).Type(), ls))
+		vc.frameObligations(r.cond, r.st, suffix)
 	}
-	env := vc.newEnv(st, vc.st0, nil)
-	vc.bindResults(env, con, res)
-	for _, c := range con.Ensures {
-		vc.oblige("post", "post."+c.Label, c.Props, reach, vc.evalBool(env, c.Expr), c.Text, token.NoPos)
-	}
-	vc.frameObligations(reach, st)
 }
 
 func (vc *VC) bindResults(env *Env, con *Contract, res []SV) {
@@ -618,7 +620,7 @@ func (vc *VC) modifiable(name string) bool {
 }
 
 // frameObligations: with "assigns fresh-only" no row allocated before entry may differ at exit.
-func (vc *VC) frameObligations(reach string, st *State) {
+func (vc *VC) frameObligations(reach string, st *State, suffix string) {
 	con := vc.con
 	if con.Assigns == "" || con.Assigns == "any" {
 		return
@@ -637,7 +639,7 @@ func (vc *VC) frameObligations(reach string, st *State) {
 		if cur == init {
 			continue
 		}
-		label := "frame." + strings.ReplaceAll(strings.ReplaceAll(k, "|", "."), " ", "")
+		label := "frame." + strings.ReplaceAll(strings.ReplaceAll(k, "|", "."), " ", "") + suffix
 		if isHeapVar(k) && con.Assigns == "fresh-only" {
 			o := vc.oblige("frame", label, con.frameProps(), reach, "", "assigns fresh-only", token.NoPos)
 			if o != nil {
